@@ -166,4 +166,13 @@ def ceval(t: Term, mods):
         return (not a) if isinstance(a, (int, bool)) else None
     if t[0] == "call" and call_is(t, "int") and len(t[2]) == 1:
         return ceval(t[2][0], mods)
+    if t[0] == "sub":
+        # TABLE[i] for a literal table and a determined index
+        i = ceval(t[2], mods)
+        base = strip(t[1])
+        if isinstance(i, int) and not isinstance(i, bool):
+            if is_const(base) and isinstance(base[1], (tuple, list, bytes)) and -len(base[1]) <= i < len(base[1]) and isinstance(base[1][i], int):
+                return base[1][i]
+            if base[0] in ("tuple", "list") and -len(base[1]) <= i < len(base[1]):
+                return ceval(base[1][i], mods)
     return None
